@@ -1,23 +1,368 @@
 """C13 -- thread-local state restored and callbacks run on every path."""
+import json
 import os
+
 from harness.common import facts as F
 from harness.c13 import translate as TR
 
 ID = 'C13'
 HERE = os.path.dirname(os.path.abspath(__file__))
+CASES = {'quick': 5200, 'thorough': 120000}
+PARALLEL = True
+PROOF_TIMEOUT = 900
+ALLOWED_AXIOMS = ()
+RULE = ('request cases: every single injection point (19) x exception kind (plain / HTTP exception response / '
+        'PredicateMismatch, plus "predicate false / permission denied") x exception-view availability (none / renders / '
+        'raises each kind) x route or traversal x callback-registration pattern, enumerated exhaustively; then random '
+        'scenario trees (subrequests to depth 3, with and without tweens, up to 3 faults, random callback '
+        'registrations at any point). scope cases: the 15 analysed entry points x failure site. non-trivial = a request '
+        'case in which a fault fires or a callback runs, or a scope case with an injected failure; distinct by full case')
+ASSUMPTIONS = [
+    'part (a): only calls raise (attribute access, arithmetic, truth tests do not); an opaque call leaves the thread-local '
+    'stack as it found it (for nested router calls this is the statement being proved); 3-argument getattr and the '
+    'AppEnvironment constructor do not raise; the name->definition bindings in harness/c13/translate.py BIND are right',
+    'part (a): a for loop may raise at each iteration; `except X` (X not BaseException) may or may not catch',
+    'part (b): one thread; the default execution policy; Configurator(exceptionresponse_view=None); one exception view '
+    'registered for Exception (or none); components are the instrumented ones of harness/c13/app.py',
+    'a finished callback that itself raises stops the remaining finished callbacks (documented behaviour): the callback '
+    'clause of the property is only judged for scenarios without a raising finished callback',
+]
+TRUSTED = ['Python-ast -> stmt translator harness/c13/translate.py (fail-closed; bindings table written by hand)',
+           'hand-written pipeline model coq/Model/C13.v part (b) (shape-pinned functions, differential correspondence)',
+           'WebOb request/response, zope.interface adapter lookup, view derivers (exercised for real, not modelled)']
+TECHNIQUE = ('Coq: verified path-summary analysis (analyse_sound) run by vm_compute on push/pop skeletons regenerated from '
+             'the source on every run; induction over scenario trees for the pipeline interpreter; extracted-model '
+             'fault-injection correspondence through a real Router')
+LEVEL_TEXT = ('Machine-checked: (a) for the regenerated skeletons of Router.__call__/default_execution_policy, '
+              'invoke_subrequest, invoke_request, invoke_exception_view, the excview tween, Configurator '
+              'commit/include/action/route_prefix_context/with/make_wsgi_app/begin/end and scripting prepare/get_root/closers, '
+              'on EVERY path (any opaque call returning or raising, any number of loop iterations) the thread-local stack is '
+              'restored (resp. +1/-1 for acquire/release), marked moments happen under the right frame, finish_request '
+              'happens exactly once and last, response callbacks/NewResponse only after handle_request returned and in that '
+              'order; (b) for the pipeline interpreter, for every scenario tree, exception-view availability and initial '
+              'stack: the stack is restored and every event happens with its own request current.')
+LEVEL_NOTE = ('Trusted: Coq kernel; the translator and its binding table; the hand-written pipeline model (validated by the '
+              'fault-injection correspondence, shape-pinned); Python harness. The callback-order clauses for the pipeline '
+              'model are judged on every observed and modelled run by the extracted judge, not proved for all scenarios '
+              '(see NOTES.md).')
+
+PINS_SPEC = {
+    'pyramid/router.py': ['Router.handle_request', 'Router.invoke_request', 'Router.finish_request',
+                          'Router.invoke_subrequest', 'Router.request_context', 'Router.__call__',
+                          'default_execution_policy', 'Router.__init__'],
+    'pyramid/threadlocal.py': ['ThreadLocalManager', 'RequestContext', 'get_current_request'],
+    'pyramid/request.py': ['CallbackMethodsMixin'],
+    'pyramid/view.py': ['_call_view', 'ViewMethodsMixin.invoke_exception_view'],
+    'pyramid/tweens.py': ['_error_handler', 'excview_tween_factory'],
+    'pyramid/util.py': ['hide_attrs'],
+    'pyramid/viewderivers.py': ['_secured_view', 'rendered_view'],
+    'pyramid/config/views.py': ['predicated_view', 'ViewsConfiguratorMixin.add_default_view_derivers',
+                                'ViewsConfiguratorMixin._apply_view_derivers'],
+}
 
 
 def facts(src):
     problems = []
-    summary = {}
-    if os.path.exists(os.path.join(HERE, 'pins.json')):
-        summary = F.check_shapes(src, os.path.join(HERE, 'pins.json'), problems)
+    summary = F.check_shapes(src, os.path.join(HERE, 'pins.json'), problems)
     try:
         t = TR.translate(src)
         problems += t['problems']
         coq = F.HEADER + t['coq']
         summary['skeletons'] = t['skeletons']
-    except Exception as e:  # fail closed: no skeletons -> nothing type-checks
+    except Exception as e:  # fail closed: without skeletons nothing type-checks
         problems.append('translator failed: %r' % e)
         coq = F.HEADER
     return {'coq': coq, 'summary': summary, 'problems': problems}
+
+
+# ------------------------------------------------------------ cases
+from harness.c13 import scopes as SC   # noqa: E402  (no pyramid import at module level there)
+
+POINTS = list(range(1, 20))
+MAY_FALSE = (4, 10, 11)
+REG_PATTERNS = [[], [[1, 3], [12, 3]], [[3, 3], [19, 3], [16, 2], [12, 1]]]
+
+
+def scn(route=0, faults=(), regs=(), sub=None):
+    return {'route': int(route), 'faults': [list(f) for f in faults], 'regs': [list(r) for r in regs], 'sub': sub}
+
+
+def enumerate_single():
+    """every single injection point x kind x exception-view availability x route x registration pattern"""
+    out = []
+    for regs in REG_PATTERNS:
+        for route in (0, 1):
+            for evmode in (0, 1, 2, 3, 4):          # none / renders / raises plain / raises http / raises pm
+                ev = 1 if evmode else 0
+                extra = [[19, evmode - 1, 0]] if evmode >= 2 else []
+                out.append({'t': 'req', 'excview': ev, 'scn': scn(route, extra, regs)})
+                for p in POINTS:
+                    if p == 19 and evmode >= 2:
+                        continue
+                    for k in (1, 2, 3, 4):
+                        if k == 4 and p not in MAY_FALSE:
+                            continue
+                        ns = (0, 1) if p in (16, 18) else (0,)
+                        for n in ns:
+                            out.append({'t': 'req', 'excview': ev, 'scn': scn(route, [[p, k, n]] + extra, regs)})
+    return out
+
+
+def enumerate_scopes():
+    return [{'t': 'scope', 'name': n, 'site': s} for n in SC.SCOPES for s in SC.SITES[n]]
+
+
+def rand_scn(rng, depth):
+    nf = rng.choice([0, 1, 1, 1, 2, 2, 3])
+    faults = []
+    for _ in range(nf):
+        p = rng.choice(POINTS)
+        k = rng.choice([1, 2, 3, 4] if p in MAY_FALSE else [1, 2, 3])
+        faults.append([p, k, rng.choice([0, 0, 1, 2]) if p in (16, 18) else 0])
+    regs = []
+    for _ in range(rng.choice([0, 1, 2, 3, 4])):
+        p = rng.choice(POINTS)
+        w = rng.choice([1, 2, 3])
+        if p == 16:
+            w = 2
+        if p == 18:
+            w = 1
+        regs.append([p, w])
+    sub = None
+    if depth > 0 and rng.random() < 0.55:
+        sub = {'tweens': rng.choice([0, 1]), 'scn': rand_scn(rng, depth - 1)}
+    return scn(rng.choice([0, 1]), faults, regs, sub)
+
+
+def generate(rng, tier, n):
+    fixed = enumerate_scopes() + enumerate_single()
+    for c in fixed:
+        yield c
+    # single fault inside a subrequest, parent healthy
+    k = 0
+    for tw in (0, 1):
+        for ev in (0, 1):
+            for p in POINTS:
+                for kind in (1, 2, 3):
+                    yield {'t': 'req', 'excview': ev,
+                           'scn': scn(1, [], [[1, 3], [12, 2]],
+                                      {'tweens': tw, 'scn': scn(0, [[p, kind, 0]], [[3, 3], [12, 3]])})}
+                    k += 1
+    m = max(0, n - len(fixed) - k)
+    for _ in range(m):
+        yield {'t': 'req', 'excview': rng.choice([0, 1, 1]), 'scn': rand_scn(rng, rng.choice([0, 1, 1, 2, 3]))}
+
+
+def _valid_scn(s, depth):
+    if depth > 6 or not isinstance(s, dict) or set(s) != {'route', 'faults', 'regs', 'sub'}:
+        return False
+    if s['route'] not in (0, 1):
+        return False
+    for f in s['faults']:
+        if not (isinstance(f, list) and len(f) == 3 and f[0] in POINTS and f[1] in (1, 2, 3, 4) and 0 <= f[2] < 8):
+            return False
+        if f[1] == 4 and f[0] not in MAY_FALSE:
+            return False
+    for r in s['regs']:
+        if not (isinstance(r, list) and len(r) == 2 and r[0] in POINTS and r[1] in (1, 2, 3)):
+            return False
+        if (r[0] == 16 and r[1] & 1) or (r[0] == 18 and r[1] & 2):
+            return False            # a callback that re-registers its own kind never terminates
+    if len(s['regs']) > 12 or len(s['faults']) > 8:
+        return False
+    if s['sub'] is not None:
+        if not (isinstance(s['sub'], dict) and set(s['sub']) == {'tweens', 'scn'} and s['sub']['tweens'] in (0, 1)):
+            return False
+        return _valid_scn(s['sub']['scn'], depth + 1)
+    return True
+
+
+def valid(case):
+    try:
+        if case.get('t') == 'scope':
+            return case['name'] in SC.SCOPES and case['site'] in SC.SITES[case['name']]
+        return case.get('t') == 'req' and case['excview'] in (0, 1) and _valid_scn(case['scn'], 0)
+    except Exception:
+        return False
+
+
+def shrinks(case):
+    if case.get('t') != 'req':
+        return
+
+    def sub_variants(s):
+        if s['sub'] is not None:
+            yield dict(s, sub=None)
+            yield s['sub']['scn']
+        for i in range(len(s['faults'])):
+            yield dict(s, faults=s['faults'][:i] + s['faults'][i + 1:])
+        for i in range(len(s['regs'])):
+            yield dict(s, regs=s['regs'][:i] + s['regs'][i + 1:])
+        for i, f in enumerate(s['faults']):
+            if f[1] != 1 and f[1] != 4:
+                yield dict(s, faults=s['faults'][:i] + [[f[0], 1, f[2]]] + s['faults'][i + 1:])
+            if f[2]:
+                yield dict(s, faults=s['faults'][:i] + [[f[0], f[1], 0]] + s['faults'][i + 1:])
+        if s['route']:
+            yield dict(s, route=0)
+        if s['sub'] is not None:
+            for v in sub_variants(s['sub']['scn']):
+                yield dict(s, sub=dict(s['sub'], scn=v))
+            if s['sub']['tweens']:
+                yield dict(s, sub=dict(s['sub'], tweens=0))
+    for v in sub_variants(case['scn']):
+        yield dict(case, scn=v)
+    if case['excview']:
+        yield dict(case, excview=0)
+
+
+# ------------------------------------------------------------ implementation
+_cache = {}
+
+
+def setup(tier):
+    from harness.c13 import app as A
+    A.get_app(0)
+    A.get_app(1)
+
+
+def _key(case):
+    return json.dumps(case, sort_keys=True)
+
+
+def _run(case):
+    if case['t'] == 'scope':
+        return SC.run_scope(case['name'], case['site'])
+    from harness.c13 import app as A
+    return A.run_request(case)
+
+
+def run_impl(case):
+    k = _key(case)
+    if k not in _cache:
+        if len(_cache) > 400000:
+            _cache.clear()
+        _cache[k] = _run(case)
+    return _cache[k]
+
+
+# ------------------------------------------------------------ wire
+def _scn_wire(s):
+    return [s['route'], [list(f) for f in s['faults']], [list(r) for r in s['regs']],
+            [] if s['sub'] is None else [s['sub']['tweens'], _scn_wire(s['sub']['scn'])]]
+
+
+def to_wire(case):
+    try:
+        obs = run_impl(case)
+    except Exception:
+        obs = None
+    if case['t'] == 'scope':
+        return [SC.SCOPES[case['name']][0], [] if obs is None else list(obs)]
+    ob = []
+    if obs is not None and obs[1] >= 0:
+        ob = [obs[1], [list(e) for e in obs[2]]]
+    return [case['excview'], _scn_wire(case['scn']), ob]
+
+
+def from_wire(case, raw):
+    if raw == [['bad']]:
+        return {'model': ['MODEL-BAD'], 'spec': None}
+    if case['t'] == 'scope':
+        paths, cls, jo = raw
+        return {'model': sorted(set(tuple(p) for p in paths)), 'spec': [cls, jo[0] if jo else -1]}
+    outcome, depth, log, jm, jo = raw
+    oc = ['resp', outcome[1]] if outcome[0] == 0 else ['exc', outcome[1]]
+    return {'model': [oc, depth, log], 'spec': [jm, jo[0] if jo else -1]}
+
+
+def equiv(case, obs, model):
+    if case['t'] == 'scope':
+        # inner == 2: the inner moment was not reached / not observable in this run
+        return any(list(p[:3]) == obs[:3] and (obs[3] == 2 or obs[3] == p[3]) for p in model)
+    return False
+
+
+def spec_holds(case, obs, spec):
+    """the extracted judge (Model/C13.v judge / scope_spec), evaluated on the IMPLEMENTATION's observation"""
+    if spec is None or not isinstance(spec, list) or len(spec) != 2:
+        return None
+    if spec[1] == -1:
+        return None
+    return bool(spec[1])
+
+
+def classify(case, obs, spec):
+    if case['t'] == 'scope' and case['name'] in ('get_root', 'prepare', 'prepare_with') \
+            and case['site'] in ('root_factory', 'root_factory_base', 'extensions') and obs[:3] == [1, 0, 1] and obs[3] != 0:
+        return 'C13-scripting-acquire-leak'
+    if case['t'] == 'scope' and case['name'] in ('prepare_closer', 'prepare_with') \
+            and case['site'] == 'finished_callback' and obs[:3] in ([1, 0, 0], [1, 0, 1]) and obs[3] != 0:
+        return 'C13-scripting-closer-skips-end'
+    return None
+
+
+def _fired(case, obs):
+    """faults whose point appears in the log"""
+    pts = set((e[0], e[1]) for e in obs[2])
+    out = []
+    s, lvl = case['scn'], 0
+    while s is not None:
+        out += [f for f in s['faults'] if (f[0], lvl) in pts]
+        s = s['sub']['scn'] if s['sub'] else None
+        lvl += 1
+    return out
+
+
+def nontrivial(case, obs):
+    if not isinstance(obs, list) or (obs and obs[0] == 'HARNESS-EXC'):
+        return False
+    if case['t'] == 'scope':
+        return case['site'] != 'none'
+    return bool(_fired(case, obs)) or any(e[0] in (16, 18) for e in obs[2])
+
+
+def kinds(case, obs):
+    if not isinstance(obs, list) or (obs and obs[0] == 'HARNESS-EXC'):
+        return ['harness-exc']
+    if case['t'] == 'scope':
+        return ['scope:%s' % case['name'], 'scope-exit:%s' % ('raise' if obs[0] else 'return')]
+    from harness.c13.app import POINT_NAMES
+    k = ['outcome:%s' % ('response-from-%s' % POINT_NAMES.get(obs[0][1], obs[0][1]) if obs[0][0] == 'resp'
+                         else 'exception-kind-%s' % obs[0][1])]
+    k.append('excview:%s' % ('registered' if case['excview'] else 'none'))
+    depth, s = 0, case['scn']
+    while s['sub']:
+        depth, s = depth + 1, s['sub']['scn']
+    k.append('subrequest-depth:%d' % depth)
+    fired = _fired(case, obs)
+    k.append('faults-fired:%d' % len(fired))
+    for f in fired:
+        k.append('fault@%s' % POINT_NAMES[f[0]])
+        k.append('fault-kind:%s' % {1: 'plain', 2: 'http', 3: 'predicate-mismatch', 4: 'false/denied'}[f[1]])
+    if any(e[0] == 19 for e in obs[2]):
+        k.append('exception-view-ran')
+    if any(e[0] == 16 for e in obs[2]):
+        k.append('response-callback-ran')
+    if any(e[0] == 18 for e in obs[2]):
+        k.append('finished-callback-ran')
+    if any(e[1] > 0 for e in obs[2]):
+        k.append('subrequest-ran')
+    return k
+
+
+def describe(case):
+    return case
+
+
+def explain(item):
+    c = item['case']
+    if c.get('t') == 'scope':
+        return ('scope %s with a failure injected at %s: observed [exit 0=return/1=raise, frames popped from the '
+                "caller's stack, frames left pushed] = %r" % (c['name'], c['site'], item['impl']))
+    return 'request scenario; observed [outcome, final depth, log of [point, level, depth, current-is-this, aux]]'
+
+
+def targeted(broken, disagreements, rng):
+    """a broken skeleton theorem / pin: replay every scope with every failure site, then the single-fault sweep"""
+    return enumerate_scopes() + enumerate_single()
